@@ -1,7 +1,15 @@
 /-
 Driver commands of the C19 model (stateless):
   c19 enabled  <default> <file> <env> <prog> <hasfile>          → ok true|false
-  c19 requests <default> <file> <env> <prog> <hasfile> <ticks>  → ok <n>
+  c19 requests <default> <file> <env> <prog> <hasfile> <ticks>  → ok <n>      (interval 1 s, id file creatable)
+  c19 path <default> <file> <env> <prog> <hasfile> <interval-seconds> <idenv> <ticks>
+        the whole path NewConfig → Server.Start → telemetry.New → Collector.Start → run
+                                                                → ok created=<b> flag=<b|-> interval=<ns|-> id=<err|file|fresh|other|-> requests=<n>
+  c19 new <enabled> <interval-ns> <idenv> <ticks>               → same answer, for telemetry.New(&Config{…}) + Start()
+  c19 newnil <idenv> <ticks>                                    → same answer, for telemetry.New(nil, …) + Start()
+<idenv>: five characters  m f r w o :  m,r,w,o ∈ {0,1} = os.MkdirAll / crypto/rand / os.WriteFile
+succeed, conditions the extractor does not understand hold;  f ∈ {n,e,c} = the id file is
+unreadable / empty / has content.  `id=-`: New was not called.
   c19 keys                                                      → ok k1,k2,…   (sorted)
   c19 envvar                                                    → ok <VARIABLE> file=<b> nofile=<b>
   c19 default                                                   → ok true|false
@@ -12,7 +20,7 @@ Driver commands of the C19 model (stateless):
 import Liftbridge.Model.TelemetryCfg
 
 namespace Liftbridge.Driver
-open Liftbridge Liftbridge.TelemetryCfg
+open Liftbridge Liftbridge.TelemetryTypes Liftbridge.TelemetryCfg
 
 def c19Bool? : String → Option Bool
   | "true" => some true
@@ -32,15 +40,70 @@ def c19Cfg? (d f e p h : String) : Option (Facts × Cfg) :=
     some ({ genFacts with defaultEnabled := d }, { file := c19Route f, env := c19Route e, prog := p, hasConfigFile := h })
   | _, _, _ => none
 
+def c19Bit? : Char → Option Bool
+  | '1' => some true
+  | '0' => some false
+  | _ => none
+
+def c19IdEnv? (s : String) : Option IdEnv :=
+  match s.toList with
+  | [m, f, r, w, o] =>
+    let file : Option (Option (List Char)) :=
+      match f with
+      | 'n' => some none
+      | 'e' => some (some [])
+      | 'c' => some (some ['x'])
+      | _ => none
+    match c19Bit? m, file, c19Bit? r, c19Bit? w, c19Bit? o with
+    | some m, some f, some r, some w, some o => some ⟨m, f, r, w, o⟩
+    | _, _, _, _, _ => none
+  | _ => none
+
+def c19IdName : IdOut → String
+  | .err => "err"
+  | .file => "file"
+  | .fresh => "fresh"
+  | .other _ => "other"
+
+/-- Answer for "New was called with `arg` and, if a collector came out, started". -/
+def c19Outcome (F : Facts) (called : Bool) (arg : Option TCfg) (e : IdEnv) (ticks : Nat) : String :=
+  if !called then "ok created=false flag=- interval=- id=- requests=0"
+  else
+    let fs : String → IdEnv := fun _ => e
+    match newCfg F arg with
+    | none => "ok created=false flag=- interval=- id=- requests=0"
+    | some c =>
+      let id := loadOrCreate F e
+      let n := collectorRequests F arg fs ticks
+      s!"ok created={!idIsErr id} flag={c.enabled} interval={c.interval} id={c19IdName id} requests={n}"
+
 def c19 (toks : List String) : String :=
   match toks with
+  | ["path", d, f, e, p, h, iv, env, n] =>
+    match c19Cfg? d f e p h, iv.toInt?, c19IdEnv? env, n.toNat? with
+    | some (F, c), some iv, some env, some n =>
+      let r : Run := ⟨enabled F c, iv, "data"⟩
+      let arg := startArg F r
+      let ans := c19Outcome F arg.isSome arg env n
+      -- the two formulations of the model agree (cheap self-check of the driver)
+      if (requests F c iv "data" (fun _ => env) n) == (if arg.isSome then collectorRequests F arg (fun _ => env) n else 0)
+      then ans else "bad-op"
+    | _, _, _, _ => "bad-op"
+  | ["new", en, iv, env, n] =>
+    match c19Bool? en, iv.toInt?, c19IdEnv? env, n.toNat? with
+    | some en, some iv, some env, some n => c19Outcome genFacts true (some ⟨en, iv, "data"⟩) env n
+    | _, _, _, _ => "bad-op"
+  | ["newnil", env, n] =>
+    match c19IdEnv? env, n.toNat? with
+    | some env, some n => c19Outcome genFacts true none env n
+    | _, _ => "bad-op"
   | ["enabled", d, f, e, p, h] =>
     match c19Cfg? d f e p h with
     | some (F, c) => s!"ok {enabled F c}"
     | none => "bad-op"
   | ["requests", d, f, e, p, h, n] =>
     match c19Cfg? d f e p h, n.toNat? with
-    | some (F, c), some n => s!"ok {requests F c n}"
+    | some (F, c), some n => s!"ok {requests F c 1 "data" fsOk n}"
     | _, _ => "bad-op"
   | ["keys"] => "ok " ++ ",".intercalate (Gen.Telemetry.payloadKeys.toArray.qsort (· < ·)).toList
   | ["envvar"] =>
